@@ -56,11 +56,15 @@ def mk(t, dims, fn, arg='tensor'):
     elif fn == 'isequal':
         rt = 'bool'; mode = 'EXACT'; call = 'isequal(a,b,tol)'
         body = 'bool h=true; for(int i=0;i<%d;i++) if(!(std::abs(a[i]-b[i]) < (%s)tol)) h=false; *r=h;' % (n, ct)   # isequal compares in the element type
+    elif fn == 'isorthogonal':   # isequal(A^T A, I, tol), compared in the element type
+        rt = 'bool'; mode = 'ALG'; N = dims[0]; call = 'isorthogonal(a,tol)'
+        body = ('bool h=true; for(int i=0;i<%d;i++) for(int j=0;j<%d;j++){ %s g=0; for(int k=0;k<%d;k++) g += a[k*%d+i]*a[k*%d+j]; if(!(std::abs(g - (%s)(i==j?1:0)) < (%s)tol)) h=false; } *r=h;'
+                % (N, N, ct, N, N, N, ct, ct))
     elif fn == 'issymmetric':
         rt = 'bool'; mode = 'EXACT'; N = dims[0]; call = 'issymmetric(a,tol)'
         body = 'bool h=true; for(int i=0;i<%d;i++) for(int j=0;j<%d;j++) if((double)std::abs(a[i*%d+j]-a[j*%d+i]) > tol) h=false; *r=h;' % (N, N, N, N)
     rct = CTYPE[rt]
-    tolp = ', double tol' if fn in ('isequal', 'issymmetric') else ''
+    tolp = ', double tol' if fn in ('isequal', 'issymmetric', 'isorthogonal') else ''
     wit = 'extern "C" void @W@(const %s& a, const %s& b%s, %s* r){ *r = %s; }' % (tensor_t(t, dims), tensor_t(t, dims), tolp, rct, call)
     ref = 'extern "C" void @R@(const %s* a, const %s* b%s, %s* r){ %s %s }' % (ct, ct, tolp, rct, pre, body)
     regions = [treg('a', t, dims), treg('b', t, dims), rreg('r', rt, 1, role='out'), rreg('rref', rt, 1)]
@@ -95,6 +99,8 @@ def witnesses(tier, seed):
             if N <= 4 and fp:
                 W.append(mk(t, [N, N], 'trace', 'evalexpr')); W.append(mk(t, [N, N], 'sum', 'evalexpr')); W.append(mk(t, [N, N], 'min', 'evalexpr')); W.append(mk(t, [N, N], 'max', 'evalexpr'))
                 W.append(mk(t, [N, N], 'issymmetric'))
+                if N <= 4:
+                    W.append(mk(t, [N, N], 'isorthogonal'))
             if 2 <= N <= 4 and fp:   # determinant of a 1x1 tensor is not offered by the library (does not compile in any configuration)
                 W.append(mk(t, [N, N], 'determinant')); W.append(mk(t, [N, N], 'det'))
         for dims in ([2, 3], [3, 4, 2], [5, 7]):
@@ -111,6 +117,6 @@ def check(tier, seed):
                       rule='scalar-valued functions of tensors and of lazy expressions (element-wise and evaluation-requiring) with all elements symbolic, compared with a plain fold written from the definition: sum/product/inner/trace/norm as polynomial identities (every element once; norm = sqrt of the sum of squares), min/max as MINMAX sets over exactly the elements (the fold identity lowest()/max() is the only constant admitted; any other seed is an extra member), determinant n<=4 against the Leibniz expansion, predicates all_of/any_of/none_of/isequal/issymmetric as boolean functions of the comparison atoms decided by Shannon expansion (none_of == !any_of falls out). Sizes 1..17 (thorough 1..35) cover every residue modulo every vector width on all seven ISAs.',
                       trusted=['clang-14 front end and -O2 code generation', 'LLVM IR semantics as modelled by irflow', 'x86 lane table', 'reference folds emitted by gen/c16.py'],
                       floors=load_floors('C16', tier), assumptions=['determinants for n > 4 pivot on data and are not analysed here', 'min/max: NaN ordering and the sign of zero are not distinguished; inputs finite', 'the n*eps*sum|x| rounding clause is discharged structurally (no fast-math flags, every element enters once)'],
-                      extra_cov={'not_decided': 'determinant<LU|QR> for n>4 (data-dependent pivot search), isorthogonal beyond acceptance'})
+                      extra_cov={'not_decided': 'determinant<LU|QR> for n>4 (data-dependent pivot search: n=5 exceeds the budget of the case split)'})
     finally:
         R.cleanup()
